@@ -656,6 +656,10 @@ func lookupIntrinsic(fn *ssa.Function, name string) intrinsic {
 			}
 		}
 	}
+	// environment packages stubbed wholesale (sockets, structured loggers)
+	if pk := fn.Package(); pk != nil && stubPkgs[pk.Pkg.Path()] {
+		return stubIntrinsic
+	}
 	if strings.HasPrefix(name, verifndPath+".") {
 		if in, ok := intrinsics["verifnd."+fn.Name()]; ok {
 			return in
@@ -681,4 +685,36 @@ func (w *World) lookupMethod(T types.Type, pkg *types.Package, name string) *ssa
 		return nil
 	}
 	return w.prog.MethodValue(sel)
+}
+
+var stubPkgs = map[string]bool{
+	"github.com/pebbe/zmq4":      true,
+	"github.com/sirupsen/logrus": true,
+}
+
+// stubIntrinsic: an environment call that succeeds and returns zero values;
+// pointer results are fresh non-nil objects so that methods can be called on them.
+func stubIntrinsic(w *World, t *Thread, fr *frame, fn *ssa.Function, args []Value) Value {
+	res := fn.Signature.Results()
+	mk := func(rt types.Type) Value {
+		if p, ok := rt.Underlying().(*types.Pointer); ok {
+			if _, isStruct := p.Elem().Underlying().(*types.Struct); isStruct {
+				cell := new(Value)
+				*cell = w.zero(p.Elem())
+				return cell
+			}
+		}
+		return w.zero(rt)
+	}
+	switch res.Len() {
+	case 0:
+		return nil
+	case 1:
+		return mk(res.At(0).Type())
+	}
+	out := make(Tuple, res.Len())
+	for i := range out {
+		out[i] = mk(res.At(i).Type())
+	}
+	return out
 }
